@@ -19,6 +19,9 @@ struct Slot {
     default: u8, // 0 none, 1 bare #[serde(default)], 2 merged with rename, 3 merged with skip_serializing_if
     wrap: u8,    // 0 none, 1 Box<..> outside, 2 Arc inside the option, 3 both
     ident: String,
+    /// the whole group carries a per-language type override (`#[typeshare(swift(type = ..), ..)]`): the type is replaced,
+    /// optionality is still decided by Option / serde(default)
+    ovr: bool,
 }
 
 impl Slot {
@@ -36,11 +39,16 @@ impl Slot {
         }
     }
     fn attrs(&self) -> String {
-        match self.default {
+        let d = match self.default {
             0 => String::new(),
             1 => "#[serde(default)]\n".into(),
             2 => format!("#[serde(rename = \"{}Renamed\", default)]\n", self.ident),
             _ => "#[serde(skip_serializing_if = \"is_default\", default)]\n".into(),
+        };
+        if self.ovr {
+            format!("{d}#[typeshare(swift(type = \"OvrT\"), kotlin(type = \"OvrT\"), typescript(type = \"OvrT\"), go(type = \"OvrT\"), scala(type = \"OvrT\"))]\n")
+        } else {
+            d
         }
     }
     fn optional(&self) -> bool {
@@ -72,9 +80,13 @@ fn gen_model(rng: &mut Rng, exhaustive_index: Option<usize>) -> Model {
     let mut counter = 0;
     let mut slots_for = |base: &str, rng: &mut Rng, all: bool| -> Vec<Slot> {
         let mut v = vec![];
+        // one group in six is overridden as a whole. Only T with / without serde(default): for Option<T> the override text
+        // replaces the `T?` / `Option[T]` the backend would have printed, so what the field looks like is the user's own
+        // text (outside the property's quantifier; noted in DESIGN 10.2)
+        let ovr = !all && rng.chance(1, 6);
         let mut push = |opt: u8, default: u8, wrap: u8, v: &mut Vec<Slot>| {
             counter += 1;
-            v.push(Slot { t: base.to_string(), opt, default, wrap, ident: format!("f{counter}") });
+            v.push(Slot { t: base.to_string(), opt: if ovr { 0 } else { opt }, default, wrap, ident: format!("f{counter}"), ovr });
         };
         push(0, 0, 0, &mut v); // required sibling
         if all {
@@ -393,7 +405,7 @@ pub fn run(ctx: &Ctx) -> (Spec, Report) {
     );
     let spec = Spec {
         level: "exploration",
-        rule: format!("{n} programs: for each base type T (primitives, containers, user types, generic parameters) the full product {{T, Option<T>, Option<Option<T>>}} x {{no default, #[serde(default)], merged with rename, merged with skip_serializing_if}} plus Box/Arc-wrapped forms (first {n_exh} programs enumerate it per base type), then random compositions; positions: struct field, struct-variant field, newtype payload, alias; 6 languages (Go with and without `no_pointer_slice`); oracle: marker set per language idiom from `is_option || has_default`, and type equality with a required sibling of the same T; distinct = (language, position, opt/default/wrap cell, base-type class)"),
+        rule: format!("{n} programs: for each base type T (primitives, containers, user types, generic parameters) the full product {{T, Option<T>, Option<Option<T>>}} x {{no default, #[serde(default)], merged with rename, merged with skip_serializing_if}} plus Box/Arc-wrapped forms and groups whose type is replaced by a per-language type override (first {n_exh} programs enumerate it per base type), then random compositions; positions: struct field, struct-variant field, newtype payload, alias; 6 languages (Go with and without `no_pointer_slice`); oracle: marker set per language idiom from `is_option || has_default`, and type equality with a required sibling of the same T; distinct = (language, position, opt/default/wrap cell, base-type class)"),
         assumptions: vec![
             "double options must stay distinguishable only in TypeScript (`?` + `| null`), as the property says".into(),
             "Go newtype payloads are judged on type equality only: the accessor's pointer is an implementation detail of struct-typed payloads".into(),
